@@ -45,10 +45,14 @@ def main() -> int:
         rep.analysed["functions"] = len(prog.functions)
         rep.analysed["classes"] = len(prog.classes)
         mod.run(rep, prog, args.tier)
-        if args.tier == "thorough" and hasattr(mod, "selftest"):
+        selftest_error = None
+        if args.tier == "thorough" and not args.src:
             from engine.selftest import run_selftest
 
-            run_selftest(rep, mod, prog, seed)
+            try:
+                run_selftest(rep, mod, prog, seed)
+            except AnalysisError as e:
+                selftest_error = e
         if args.replay:
             with open(args.replay) as fh:
                 want = json.load(fh)
@@ -58,7 +62,11 @@ def main() -> int:
                     print("REPLAY " + f.text())
                     for w in f.witness:
                         print("    via " + w)
-        return rep.finish()
+        rc = rep.finish()
+        if selftest_error is not None and rc == 0:
+            print(f"ANALYSIS-ERROR property={prop} {selftest_error}")
+            return 2
+        return rc
     except AnalysisError as e:
         print(f"ANALYSIS-ERROR property={prop} {e}")
         return 2
